@@ -1,9 +1,18 @@
 import HexProofs.Access.Basic
+import HexProofs.Access.SurfaceHexital
+import HexProofs.Access.SurfaceEq
 import HexModel.Core.Hexital
 import HexProofs.Lib.IntInst
 /-
 C20 – All ways of asking for a reading give the same answer.
 Every theorem holds for an arbitrary float carrier `F`.
+Since round 6 the modelled surface (HexModel/Core/Surface.lean, tied by the correspondence) and this file also cover
+`Indicator.read_candle` (`read_candle_*`), `Hexital.indicator` and the EXACT rule of `Hexital.reading` across managers
+(`hexital_reading_spec`: the first non-None value, default manager first; `hexital_reading_eq_indicator` with its necessary side
+condition – witness: the candle field `volume` on two managers), `reading(name, None)` (`hexital_reading_none_index`: always None on
+the Hexital, the latest candle on the member object – the one statement I had guessed wrong), `utils.indexing`
+(`valid_index_iff`, `validate_index_iff`, `absindex_iff`) and `find_indicator` (`find_indicator_iff`: TRUTHINESS of the reading, so a
+series of zeros is "not found": `find_indicator_misses_falsy_series`).
 -/
 namespace Hex.C20
 open Hex
@@ -120,5 +129,101 @@ def demoCandle : Candle Int :=
   { o := .int 1, h := .int 1, l := .int 1, c := .int 1, v := .int 0, inds := [("COUNT_x", Val.int 0)] }
 example : ((dlookup "COUNT_x" demoCandle.inds).map Val.isNone) = some false := by decide
 example : dlookup "COUNT_y" demoCandle.inds = none := by decide
+
+/-- **read_candle** at an index is `reading(name, index)` – the same computation for every index -/
+theorem read_candle_eq_reading (s : IndState F) (i : Int) (name : Option String) :
+    s.readCandleAt i name = s.ctx.reading (name.getD s.tree.name) (some i) :=
+  Surf.readCandleAt_eq_reading s i name
+
+/-- in range (positive or negative) it is direct inspection of the addressed candle = `reading_by_index` -/
+theorem read_candle_in_range (s : IndState F) (i : Int) (name : Option String)
+    (hlo : -(s.mgr.candles.length : Int) ≤ i) (hhi : i < s.mgr.candles.length) :
+    ∃ hlt : Surf.normIdx i s.mgr.candles.length < s.mgr.candles.length,
+      s.readCandleAt i name = .ok (readingByCandle s.mgr.candles[Surf.normIdx i s.mgr.candles.length] (name.getD s.tree.name)) ∧
+      s.readCandleAt i name = .ok (readingByIndex s.mgr.candles (name.getD s.tree.name) i) ∧
+      s.readCandleAt i name = .ok (s.readCandle s.mgr.candles[Surf.normIdx i s.mgr.candles.length] name) :=
+  Surf.readCandleAt_in_range s i name hlo hhi
+
+theorem read_candle_out_of_range (s : IndState F) (i : Int) (name : Option String)
+    (h : ¬ (-(s.mgr.candles.length : Int) ≤ i ∧ i < s.mgr.candles.length)) :
+    s.readCandleAt i name = .error .indexError := Surf.readCandleAt_out_of_range s i name h
+
+/-- **Positive and negative indices address the same candle** (`read_candle`) -/
+theorem read_candle_negative_index (s : IndState F) (i : Int) (name : Option String)
+    (h0 : 0 ≤ i) (h1 : i < s.mgr.candles.length) :
+    s.readCandleAt (i - s.mgr.candles.length) name = s.readCandleAt i name :=
+  Surf.readCandleAt_negative_index s i name h0 h1
+
+/-- `read_candle` on a candle of the list agrees with `reading` / `as_list` at its position -/
+theorem read_candle_of_mem (s : IndState F) (c : Candle F) (name : Option String) (hc : c ∈ s.mgr.candles) :
+    ∃ n : Nat, s.mgr.candles[n]? = some c ∧
+      s.readCandleAt n name = .ok (s.readCandle c name) ∧
+      s.readCandleAt ((n : Int) - s.mgr.candles.length) name = .ok (s.readCandle c name) ∧
+      s.ctx.reading (name.getD s.tree.name) (some (n : Int)) = .ok (s.readCandle c name) ∧
+      (s.asList name)[n]? = some (s.readCandle c name) := Surf.readCandle_of_mem s c name hc
+
+/-- plain and dotted names: direct inspection of the candle's dicts -/
+theorem read_candle_plain (s : IndState F) (c : Candle F) (name : String) (hk : IsKey name) :
+    s.readCandle c (some name) = (Surf.lookupEntry c name).getD .none := Surf.readCandle_plain s c name hk
+theorem read_candle_dotted (s : IndState F) (c : Candle F) (main fld : String) (hm : NoDot main) (hf : NoDot fld) :
+    s.readCandle c (some (main ++ "." ++ fld)) =
+      match Surf.lookupEntry c main with
+      | some r => r.nested fld
+      | none => .none := Surf.readCandle_dotted s c main fld hm hf
+
+/-- **`utils.indexing`**: in range ⇔ `-len ≤ i < len`; `validate_index` keeps the index, `absindex` normalises it -/
+theorem valid_index_iff (idx : Option Int) (n : Nat) :
+    validIndexOpt idx n = true ↔ ∃ i, idx = some i ∧ -(n : Int) ≤ i ∧ i < n := Surf.validIndexOpt_iff idx n
+theorem validate_index_iff (idx : Option Int) (n : Nat) (dflt j : Int) :
+    validateIndex idx n dflt = some j ↔ (j = idx.getD dflt ∧ -(n : Int) ≤ j ∧ j < n) :=
+  Surf.validateIndex_eq_some_iff idx n dflt j
+theorem absindex_iff (i : Int) (n : Nat) (j : Int) :
+    absIndexOpt (some i) n = some j ↔ (-(n : Int) ≤ i ∧ i < n ∧ j = Surf.normIdx i n) :=
+  Surf.absIndex_eq_some_iff i n j
+theorem absindex_none (n : Nat) : absIndexOpt none n = some ((n : Int) - 1) := rfl
+theorem absindex_same_candle {α : Type} (l : List α) (i j : Int) (h : absIndexOpt (some i) l.length = some j) :
+    0 ≤ j ∧ j < l.length ∧ pyIndex l j = pyIndex l i := Surf.absIndexOpt_spec l i j h
+
+/-- **`Hexital.indicator`** is the registered member over its manager's candles -/
+theorem hexital_indicator_inv (h : Hexital F) (name : String) (s : IndState F) (hs : h.indicator name = .ok s) :
+    ∃ hi, dlookup name h.indicators = some hi ∧ dlookup hi.mgrKey h.managers = some s.mgr ∧
+      s.tree = hi.tree ∧ s.active = hi.active := Surf.indicator_inv h name s hs
+
+/-- **`Hexital.reading_as_list(name)`** is `as_list(name)` of the member registered under the primary name -/
+theorem hexital_as_list_eq_indicator (h : Hexital F) (name : String) (s : IndState F)
+    (hs : h.indicator ((splitDot name).headD "") = .ok s) :
+    h.readingAsList name = .ok (s.asList (some name)) := Surf.readingAsList_eq_indicator h name s hs
+
+/-- **`Hexital.reading`, the exact rule** (first non-`None` answer: default manager, then every manager in order) -/
+theorem hexital_reading_spec (h : Hexital F) (name : String) (i : Int) (dm : Manager F)
+    (hd : h.manager defaultKey = .ok dm) :
+    h.reading name i = .ok (Surf.firstReading
+      ((dm :: h.managers.map (·.2)).map fun m => readingByIndex m.candles name i)) :=
+  Surf.hexital_reading_spec h name i dm hd
+
+/-- **`Hexital.reading(name, i)` = the member's `reading(name, i)`** when no other manager holds a different
+non-`None` value under `name` at `i` -/
+theorem hexital_reading_eq_indicator (h : Hexital F) (nm name : String) (i : Int) (s : IndState F)
+    (hs : h.indicator nm = .ok s) (dm : Manager F) (hd : h.manager defaultKey = .ok dm)
+    (hall : ∀ p ∈ h.managers, (readingByIndex p.2.candles name i).isNone = true ∨
+        readingByIndex p.2.candles name i = readingByIndex s.mgr.candles name i) :
+    h.reading name i = .ok (readingByIndex s.mgr.candles name i) ∧
+    (-(s.mgr.candles.length : Int) ≤ i → i < s.mgr.candles.length →
+      h.reading name i = s.readCandleAt i (some name) ∧ h.reading name i = s.ctx.reading name (some i)) :=
+  Surf.hexital_reading_eq_indicator h nm name i s hs dm hd hall
+
+/-- **`Hexital.reading(name, None)` is `None`**, not the latest reading -/
+theorem hexital_reading_none_index (h : Hexital F) (name : String) (dm : Manager F)
+    (hd : h.manager defaultKey = .ok dm) : h.readingOpt name none = .ok .none := Surf.readingOpt_none h name dm hd
+
+/-- **`find_indicator`** tests TRUTHINESS, not presence -/
+theorem find_indicator_iff (cs : List (Candle F)) (name : String) :
+    findIndicator cs name = true ↔ ∃ c ∈ cs, (readingByCandle c name).truthy = true := Surf.findIndicator_iff cs name
+theorem find_indicator_misses_falsy_series (cs : List (Candle F)) (name : String)
+    (hfalsy : ∀ c ∈ cs, (readingByCandle c name).truthy = false)
+    (hpresent : ∀ c ∈ cs, (readingByCandle c name).isNone = false) :
+    findIndicator cs name = false ∧ readingCount cs name = cs.length ∧
+    (cs ≠ [] → (readingByIndex cs name (-1)).isNone = false) :=
+  Surf.findIndicator_misses_falsy_series cs name hfalsy hpresent
 
 end Hex.C20
